@@ -45,13 +45,62 @@ MC = {
                                                                     "Requests": "c02_Requests"}),
 }
 
+MC.update({
+    "c03": ({"MaxFork": "1", "MaxPid": "5", "MaxNow": "8"}, {"Configs": "c03_Configs", "Requests": "c03_Requests"}),
+    "c04": ({"MaxPid": "7"}, {"Configs": "c04_Configs", "Requests": "c04_Requests", "FaultSeqs": "c04_Faults"}),
+    "c05": ({"MaxReq": "2", "MaxDie": "1", "ReqUntil": "3", "MaxNow": "8"},
+            {"Configs": "c05_Configs", "Requests": "c05_Requests"}),
+    "c09": ({"MaxDie": "2", "MaxPid": "6"}, {"Configs": "c09_Configs", "Requests": "c09_Requests",
+                                             "DieStatuses": "st_all"}),
+    "c10": ({"MaxReq": "2", "MaxDie": "0", "ReqUntil": "3", "MaxNow": "8"},
+            {"Configs": "c10_Configs", "Requests": "c10_Requests"}),
+    "c14": ({"MaxDie": "0", "MaxNow": "8"}, {"Configs": "c14_Configs", "Requests": "c14_Requests"}),
+    "c18": ({"MaxFork": "1", "MaxDie": "0", "MaxPid": "6", "MaxNow": "7"},
+            {"Configs": "c18_Configs", "Requests": "c18_Requests"}),
+    "c19": ({"MaxDie": "1", "MaxPid": "7", "MaxNow": "10", "DieUntil": "4"},
+            {"Configs": "c19_Configs", "Requests": "c19_Requests"}),
+    "c08": ({"MaxSig": "1", "MaxReq": "1", "MaxDie": "1", "MaxNow": "8"},
+            {"Configs": "c08_Configs", "Requests": "c08_Requests"}),
+})
+
+MC.update({
+    "c02q": ({}, {"Configs": "c02q_Configs", "Requests": "c02_Requests"}),
+    "c03q": ({"MaxFork": "1", "MaxPid": "5", "MaxNow": "8"}, {"Configs": "c03q_Configs", "Requests": "c03_Requests"}),
+    "c05q": ({"MaxReq": "2", "MaxDie": "1", "ReqUntil": "2", "DieUntil": "3", "MaxNow": "8"},
+             {"Configs": "c05q_Configs", "Requests": "c05q_Requests"}),
+    "c09q": ({"MaxDie": "1", "MaxPid": "6"}, {"Configs": "c09_Configs", "Requests": "c09_Requests",
+                                              "DieStatuses": "st_all"}),
+    "c09t": ({"MaxDie": "2", "MaxPid": "6", "DieUntil": "4"}, {"Configs": "c09_Configs", "Requests": "c09_Requests",
+                                                               "DieStatuses": "st_three"}),
+    "c19q": ({"MaxDie": "1", "MaxPid": "7", "MaxNow": "10", "DieUntil": "4"},
+             {"Configs": "c19q_Configs", "Requests": "c19_Requests"}),
+    "c08q": ({"MaxSig": "1", "MaxReq": "1", "MaxDie": "0", "MaxNow": "8"},
+             {"Configs": "c08_Configs", "Requests": "c08_Requests"}),
+})
+del MC["c09"]
+
 PROPS = {
     "C01": {"mc_quick": ["c01"], "mc_thorough": ["c01", "c01_deep"],
-            "profiles": {"default": (150, 3000)}, "conf": {"conf_basic": (60, 600)}},
-    "C02": {"mc_quick": ["c02"], "mc_thorough": ["c02", "c02_deep"],
-            "profiles": {"default": (150, 3000)}, "conf": {"conf_basic": (60, 600)}},
+            "profiles": {"default": (100, 2000), "count": (100, 3000)}, "conf": {"conf_full": (60, 800)}},
+    "C02": {"mc_quick": ["c02q"], "mc_thorough": ["c02", "c02_deep"],
+            "profiles": {"default": (80, 2000), "stop": (120, 3000)}, "conf": {"conf_full": (60, 800)}},
+    "C03": {"mc_quick": ["c03q"], "mc_thorough": ["c03"],
+            "profiles": {"default": (60, 1500), "term": (140, 3500)}, "conf": {"conf_full": (60, 800)}},
+    "C04": {"mc_quick": ["c04"], "mc_thorough": ["c04", "c02"],
+            "profiles": {"default": (80, 2000), "acct": (120, 3000)}, "conf": {"conf_full": (60, 800)}},
+    "C05": {"mc_quick": ["c05q"], "mc_thorough": ["c05"],
+            "profiles": {"default": (80, 2000), "overlap": (120, 3000)}, "conf": {"conf_full": (60, 800)}},
+    "C09": {"mc_quick": ["c09q"], "mc_thorough": ["c09q", "c09t"],
+            "profiles": {"default": (80, 2000), "events": (120, 3000)}, "conf": {"conf_full": (60, 800)}},
+    "C10": {"mc_quick": ["c10"], "mc_thorough": ["c10", "c05"],
+            "profiles": {"default": (80, 2000), "excl": (120, 3000)}, "conf": {"conf_full": (60, 800)}},
+    "C14": {"mc_quick": ["c14"], "mc_thorough": ["c14", "c04"],
+            "profiles": {"hooks": (200, 5000)}, "conf": {"conf_full": (60, 800)}},
+    "C18": {"mc_quick": ["c18"], "mc_thorough": ["c18", "c03"],
+            "profiles": {"signals": (200, 5000)}, "conf": {"conf_full": (60, 800)}},
+    "C19": {"mc_quick": ["c19q"], "mc_thorough": ["c19"],
+            "profiles": {"boot": (200, 5000)}, "conf": {"conf_full": (60, 800)}},
 }
-
 
 def cfg_text(mcname, prop):
     consts = dict(BASE_CONST)
